@@ -308,6 +308,10 @@ class VMultiprocessing:
         return VContext(self.world, method or 'default')
 
     def current_process(self):
+        ch = self.world.current_child
+        if ch is not None:
+            # inside a virtual worker: its own (virtual) pid - no such process exists for psutil
+            return types.SimpleNamespace(pid=4_000_000 + ch.idx, name=f'VProcess-{ch.idx}', daemon=False)
         return self._real.current_process()
 
     def get_start_method(self, allow_none=False):
@@ -411,10 +415,8 @@ class VWorld:
         self.idle_rounds = 0
         self.stuck_rounds = 0
         child.doomed = (tk[1] in self.die_labels and not use_cache)
-        if child.doomed:
-            # destined to die before any visible effect: the body never gets anywhere
-            child.script = [('exit',)]
-            return
+        # a doomed worker runs its preamble (start event, logging set-up) and is killed at the
+        # very start of the task's run(): see the ChildKilled handling below
         # --- run the child eagerly, isolated
         from labtech.utils import logger as lt_logger
         saved_handlers = list(lt_logger.handlers)
@@ -444,9 +446,16 @@ class VWorld:
         self.current_child = child
         MemStorage.STAGE = stage
         U.WORLD.child = child.idx
+        killed_at = []
+        saved_kill = (U.WORLD.kill_labels, U.WORLD.kill_hook)
+        if child.doomed:
+            U.WORLD.kill_labels = frozenset([tk[1]])
+            U.WORLD.kill_hook = lambda: killed_at.append((len(child.script), [len(q.buf) for q in self.queue_order]))
         try:
             try:
                 target(*proc.args, **kwargs)
+            except U.ChildKilled:
+                pass
             except BaseException as e:  # noqa  (the real child would die with a traceback)
                 self.record('child-crashed', child.idx, type(e).__name__, str(e)[:200])
                 child.script.append(('crash', type(e).__name__))
@@ -472,7 +481,19 @@ class VWorld:
                     except BaseException as e:  # noqa
                         self.record('exit-flush-failed', child.idx, repr(e))
             child.script.append(('exit',))
+            if child.doomed:
+                # keep only what happened before the kill: drop scripted effects and eager queue
+                # items produced while the exception unwound (finally clauses, exit flush)
+                if killed_at:
+                    n_script, buf_lens = killed_at[0]
+                    child.script = child.script[:n_script]
+                    for q, n in zip(self.queue_order, buf_lens):
+                        while len(q.buf) > n:
+                            q.buf.pop()
+                child.script = [ev for ev in child.script if ev[0] != 'storage' and not (ev[0] == 'put' and ev[1] is self.result_queue)]
+                child.script = [ev for ev in child.script if ev[0] != 'exit'] + [('exit',)]
         finally:
+            U.WORLD.kill_labels, U.WORLD.kill_hook = saved_kill
             MemStorage.STAGE = None
             self.current_child = None
             U.WORLD.child = None
